@@ -264,6 +264,14 @@ def compare(case, job, row):
     return d if len(d) == 3 else (d[0], "", d[1])
 
 
+def variant_of(job):
+    if job["tr"] == "http":
+        return "client codec %s" % (job["codec"] or "default")
+    if job["tr"] == "grpc":
+        return "server Internal=%s" % job["internal"]
+    return ""
+
+
 def describe_case(case, job):
     c = case["cfg"]
     return "%s K=%d %s M=%d %s handler=%s%s kinds=%s%s" % (
@@ -291,14 +299,19 @@ def confirm_and_report(ctx, mism, tag):
     for case, job, row, d in mism:
         base.setdefault(d[0], []).append((case, job, row, d))
     seen = {}
-    for sig, items in base.items():
-        kinds = sorted(set(it[3][1] for it in items))
+    for sig0, items0 in base.items():
+        # a disagreement confined to one client codec configuration (http) / one Internal setting
+        # (grpc) says so in its signature
+        tr = items0[0][1]["tr"]
+        var = sorted(set(variant_of(it[1]) for it in items0))
+        sig = sig0 + ((" [%s]" % var[0]) if len(var) == 1 and tr != "mock" and len(items0) >= 4 else "")
+        kinds = sorted(set(it[3][1] for it in items0))
         if len(kinds) <= 2 and kinds != [""]:
             # specific to one or two error kinds: the kind is part of the signature
-            for it in items:
+            for it in items0:
                 seen.setdefault(kinded(sig, it[3][1]), []).append(it)
         else:
-            seen[sig] = items
+            seen[sig] = items0
     n = 0
     flaky = []
     for sig, items in seen.items():
@@ -403,6 +416,9 @@ def run(ctx):
                 continue
             seen.add(key)
             got.append(h)
+        # TLC's workers print in a nondeterministic order: canonical order, so that a seed
+        # determines the kinds / codecs / payloads of every case
+        got.sort(key=lambda h: json.dumps(h["cfg"], sort_keys=True))
         total = len(got)
         if total == 0:
             raise vlib.Inconclusive("no cases generated (gen%d)" % n)
